@@ -116,6 +116,7 @@ type Field struct {
 	Flatten  bool
 	Attrs    []string // extra body lines (rules etc.), rendered verbatim
 	Keyword  string   // "field" (default), "option", "key", "data"
+	Rule     *RuleSpec // semantic form of Attrs, when the field comes from the rule matrix
 }
 
 type Import struct {
